@@ -570,6 +570,16 @@ LONG_METHODS = ["count_column_sum_primes", "count_fixed_points", "count_inversio
                 "max_drop_size", "count_cyclic_peaks", "count_aftermaxima", "count_foreminima", "is_increasing", "is_decreasing", "count_bounces"]
 
 
+# permutations of length 11 whose holeyness is attained ONLY on position sets made of three or more separate runs (found by an
+# offline search over 35000 random permutations: about 6 in 10000 have this shape; none exists below length 11)
+HARD_HOLEY = [
+    [0, 8, 9, 7, 4, 6, 5, 1, 10, 2, 3], [4, 10, 9, 3, 8, 0, 7, 1, 2, 6, 5], [5, 6, 10, 1, 9, 2, 8, 7, 3, 4, 0], [10, 6, 5, 7, 2, 8, 9, 1, 4, 0, 3],
+    [2, 10, 9, 3, 0, 8, 7, 1, 4, 6, 5], [2, 8, 1, 9, 10, 4, 3, 5, 6, 0, 7], [7, 10, 4, 9, 3, 2, 6, 5, 1, 0, 8], [7, 8, 0, 5, 1, 2, 6, 9, 3, 4, 10],
+    [4, 8, 9, 3, 2, 10, 1, 5, 0, 6, 7], [3, 4, 6, 5, 1, 2, 8, 7, 9, 10, 0], [6, 10, 9, 1, 0, 8, 7, 3, 2, 4, 5], [9, 10, 2, 1, 3, 4, 8, 7, 5, 6, 0],
+    [10, 4, 9, 5, 8, 2, 7, 1, 6, 0, 3], [5, 4, 10, 3, 9, 6, 2, 1, 7, 8, 0], [0, 6, 1, 5, 2, 8, 9, 7, 10, 4, 3],
+]
+
+
 def holey_structured(rng, n):
     """a permutation of length n whose holeyness is attained on SEVERAL separate runs of positions: r runs of 2-3 adjacent
     positions carry values no two of which are consecutive (every other value), the rest fills the gaps"""
@@ -703,8 +713,8 @@ def run(ctx, spec):
             for name in rng.sample(linear, 12):
                 chk_method(ctx, name, p, [])
             chk_method(ctx, rng.choice(list(STEP_METHODS)), p, [rng.choice([None, 1, 2, 5])])
-        for _ in range(12 if ctx.tier == "quick" else 80):
-            q = holey_structured(rng, rng.randint(10, 12))
+        hard = rng.sample(HARD_HOLEY, 3 if ctx.tier == "quick" else len(HARD_HOLEY))
+        for q in hard + [holey_structured(rng, rng.randint(10, 12)) for _ in range(3 if ctx.tier == "quick" else 40)]:
             if q:
                 HOLEY_FORCED[0] = True
                 try:
